@@ -290,3 +290,152 @@ Proof.
     unfold parse_line; rewrite (line_id_num id Hi); cbn. cbn [type_of norm_node] in *. rewrite (get_tpe_num ps sort _ Hs Ft); cbn [pbind]; get_exprs ps.
     unfold lower_unary, b_neg, unwrap_bv. rewrite Hta. cbn [pbind]. rewrite (check_ok _ _ Hwn Hfn Htn); cbn [pbind]; reflexivity.
 Qed.
+
+(** ** the checks of the repaired readers hold on the writer's lines *)
+Definition all_pre (ps : pstate) (toks : list string) : bool := line_fix_pre ps toks && ext_bv ps toks.
+
+Lemma vp v ps toks : (is_fix v = true -> all_pre ps toks = true) -> variant_pre v ps toks = true.
+Proof.
+  destruct v; cbn [is_fix variant_pre]; intros H; [reflexivity| |]; specialize (H eq_refl); unfold all_pre in H;
+    apply andb_true_iff in H; destruct H as [H1 H2]; [exact H1|rewrite H1, H2; reflexivity].
+Qed.
+
+Lemma plv v ps toks ps' :
+  (is_fix v = true -> all_pre ps toks = true) -> parse_line true ps toks = POk ps' -> parse_line_v v true ps toks = POk ps'.
+Proof. intros H Hl. unfold parse_line_v. rewrite (vp v ps toks H). exact Hl. Qed.
+
+Lemma opnd_num ps c x : c <= U32MAX -> PM.find (key c) (p_signals ps) = Some x -> opnd ps (num c) = Some x.
+Proof. intros H F. unfold opnd. rewrite (line_id_num c H). exact F. Qed.
+
+Lemma opnd_neg_num c : c <= U32MAX -> opnd_neg (num c) = false.
+Proof. intros H. unfold opnd_neg. rewrite (line_id_num c H). reflexivity. Qed.
+
+Lemma neg_ok_num ps c : c <= U32MAX -> neg_ok ps (num c) = true.
+Proof. intros H. unfold neg_ok. rewrite (opnd_neg_num c H). destruct (opnd ps (num c)); reflexivity. Qed.
+
+Lemma opnd_ty_num ps c x : c <= U32MAX -> PM.find (key c) (p_signals ps) = Some x -> opnd_ty ps (num c) = Some (type_of x).
+Proof. intros H F. unfold opnd_ty. rewrite (opnd_num ps c x H F). reflexivity. Qed.
+
+Lemma sort_of_num ps c t : c <= U32MAX -> PM.find (key c) (p_types ps) = Some t -> sort_of ps (num c) = Some t.
+Proof. intros H F. unfold sort_of. rewrite (line_id_num c H). exact F. Qed.
+
+Lemma sort_bv_pre ps id w : w <= U32MAX -> 0 < w -> all_pre ps [num id; "sort"; "bitvec"; num w] = true.
+Proof.
+  intros Hw Hp. unfold all_pre, line_fix_pre, line_pre, zero_sort_line, prop_bool, ext_bv. cbn.
+  rewrite (parse_width_num w Hw). destruct w; [lia|reflexivity].
+Qed.
+
+Lemma sort_arr_pre ps id ix dx iw dw : ix <= U32MAX -> dx <= U32MAX ->
+  PM.find (key ix) (p_types ps) = Some (TBV iw) -> PM.find (key dx) (p_types ps) = Some (TBV dw) ->
+  all_pre ps [num id; "sort"; "array"; num ix; num dx] = true.
+Proof.
+  intros Hx Hd Fx Fd. unfold all_pre, line_fix_pre, line_pre, zero_sort_line, prop_bool, ext_bv. cbn.
+  rewrite (sort_of_num ps ix _ Hx Fx), (sort_of_num ps dx _ Hd Fd). reflexivity.
+Qed.
+
+Lemma decl_pre ps id sort t kind : kind = "input" \/ kind = "state" -> sort <= U32MAX ->
+  PM.find (key sort) (p_types ps) = Some t -> ty_pos t -> all_pre ps [num id; kind; num sort] = true.
+Proof.
+  intros Hk Hs Ft Hp. unfold all_pre, line_fix_pre, line_pre, zero_sort_line, prop_bool, ext_bv.
+  destruct Hk as [-> | ->]; cbn; rewrite (sort_of_num ps sort _ Hs Ft); destruct t as [w|? ?]; try reflexivity;
+    cbn [ty_pos] in Hp; destruct (N.eqb_spec w 0); try lia; reflexivity.
+Qed.
+
+Lemma init_next_pre ps lid sort sid x kind : kind = "init" \/ kind = "next" -> x <= U32MAX ->
+  all_pre ps [num lid; kind; num sort; num sid; num x] = true.
+Proof.
+  intros Hk Hx. unfold all_pre, line_fix_pre, line_pre, zero_sort_line, prop_bool, ext_bv.
+  destruct Hk as [-> | ->]; cbn; rewrite (neg_ok_num ps x Hx); reflexivity.
+Qed.
+
+Lemma prop_pre ps id body v kind : body <= U32MAX -> PM.find (key body) (p_signals ps) = Some v ->
+  kind = "output" \/ ((kind = "bad" \/ kind = "constraint") /\ type_of v = TBV 1) ->
+  all_pre ps [num id; kind; num body] = true.
+Proof.
+  intros Hb Fv Hk. unfold all_pre, line_fix_pre, line_pre, zero_sort_line, prop_bool, ext_bv.
+  destruct Hk as [-> | [[-> | ->] Ht]]; cbn; rewrite (neg_ok_num ps body Hb); try reflexivity;
+    rewrite (opnd_ty_num ps body v Hb Fv), Ht; reflexivity.
+Qed.
+
+Ltac pre_ops ps :=
+  repeat match goal with
+         | F : PM.find (key ?c) (p_signals ps) = Some ?x, H : ?c <= U32MAX |- context[neg_ok ps (num ?c)] =>
+             rewrite (neg_ok_num ps c H)
+         end;
+  repeat match goal with
+         | F : PM.find (key ?c) (p_signals ps) = Some ?x, H : ?c <= U32MAX |- context[opnd_ty ps (num ?c)] =>
+             rewrite (opnd_ty_num ps c x H F)
+         end.
+
+Ltac pre_start ps Hl :=
+  cbn in Hl; inversion Hl; subst; clear Hl;
+  unfold all_pre, line_fix_pre, line_pre, zero_sort_line, prop_bool, ext_bv; cbn; pre_ops ps.
+
+Ltac pre_same ps Hl Hwt L :=
+  let Ha := fresh "Ha" in let Hb := fresh "Hb" in let Hta := fresh "Hta" in let Htb := fresh "Htb" in
+  destruct (L _ _ _ Hwt) as (Ha & Hb & Hta & Htb); pre_start ps Hl; rewrite Hta, Htb; cbn; rewrite ?N.eqb_refl; reflexivity.
+
+Lemma node_line_pre ps id sort e cs toks :
+  wt e = true -> node_fits e = true ->
+  match e with BVSymbol _ _ | ArraySymbol _ _ _ | ArrayConstant _ _ _ => False | _ => True end ->
+  node_line id sort e cs = POk toks ->
+  sort <= U32MAX -> Forall (fun c => c <= U32MAX) cs ->
+  PM.find (key sort) (p_types ps) = Some (type_of e) ->
+  Forall2 (fun c x => PM.find (key c) (p_signals ps) = Some x) cs (children e) ->
+  all_pre ps toks = true.
+Proof.
+  intros Hwt Hfit Hk Hl Hs Hcs Ft Fc.
+  destruct e; try contradiction; cbn [children] in Fc; f2_inv.
+  - (* literal *)
+    apply wt_lit in Hwt. destruct Hwt as [Hw Hv]. cbn [type_of] in Ft. cbn [node_line] in Hl.
+    assert (Hnz : (w =? 0) = false) by (destruct (N.eqb_spec w 0); [lia|reflexivity]).
+    destruct (v =? 0); [|destruct (v =? 1); [|destruct (v =? 2 ^ w - 1)]]; inversion Hl; subst; clear Hl;
+      unfold all_pre, line_fix_pre, line_pre, zero_sort_line, prop_bool, ext_bv; cbn;
+      rewrite (sort_of_num ps sort _ Hs Ft); cbn; unfold lit_safe; rewrite ?Hnz; cbn [negb andb N.eqb Pos.eqb]; rewrite ?orb_true_r; reflexivity.
+  - (* zext *)
+    destruct (wt_zext _ _ _ Hwt) as (Ha & Hta & Hlt). cbn [node_fits] in Hfit. apply andb_true_iff in Hfit. destruct Hfit as [Hf1 Hf2].
+    apply N.leb_le in Hf1, Hf2. pre_start ps Hl. rewrite Hta. cbn. rewrite (parse_width_num _ Hf1).
+    replace (w - by_ + by_) with w by lia. destruct (N.leb_spec w U32MAX); [reflexivity|lia].
+  - (* sext *)
+    destruct (wt_sext _ _ _ Hwt) as (Ha & Hta & Hlt). cbn [node_fits] in Hfit. apply andb_true_iff in Hfit. destruct Hfit as [Hf1 Hf2].
+    apply N.leb_le in Hf1, Hf2. pre_start ps Hl. rewrite Hta. cbn. rewrite (parse_width_num _ Hf1).
+    replace (w - by_ + by_) with w by lia. destruct (N.leb_spec w U32MAX); [reflexivity|lia].
+  - (* slice *)
+    destruct (wt_slice _ _ _ Hwt) as (Ha & we & Hta & Hhi & Hlo). cbn [node_fits] in Hfit. apply andb_true_iff in Hfit. destruct Hfit as [Hf1 Hf2].
+    apply N.ltb_lt in Hf1. apply N.leb_le in Hf2. pre_start ps Hl. rewrite Hta. cbn.
+    rewrite (parse_width_num hi) by lia. rewrite (parse_width_num lo) by lia.
+    destruct (N.leb_spec lo hi); [|lia]. destruct (N.ltb_spec hi U32MAX); [reflexivity|lia].
+  - (* not *) destruct (wt_not _ _ Hwt) as (Ha & Hta). pre_start ps Hl. rewrite Hta. reflexivity.
+  - (* neg *) destruct (wt_neg _ _ Hwt) as (Ha & Hta). pre_start ps Hl. rewrite Hta. reflexivity.
+  - (* eq *) destruct (wt_eq _ _ Hwt) as (Ha & Hb & w' & Hta & Htb). pre_start ps Hl. rewrite Hta, Htb. cbn. rewrite N.eqb_refl. reflexivity.
+  - (* implies *) destruct (wt_implies _ _ Hwt) as (Ha & Hb & Hta & Htb). pre_start ps Hl. rewrite Hta, Htb. reflexivity.
+  - (* ugt *) destruct (wt_ugt _ _ Hwt) as (Ha & Hb & w' & Hta & Htb). pre_start ps Hl. rewrite Hta, Htb. cbn. rewrite N.eqb_refl. reflexivity.
+  - pre_same ps Hl Hwt wt_sgt.
+  - (* uge *) destruct (wt_uge _ _ Hwt) as (Ha & Hb & w' & Hta & Htb). pre_start ps Hl. rewrite Hta, Htb. cbn. rewrite N.eqb_refl. reflexivity.
+  - pre_same ps Hl Hwt wt_sge.
+  - (* concat *)
+    destruct (wt_concat _ _ _ Hwt) as (Ha & Hb & wa & wb & Hta & Htb & ->). cbn [node_fits] in Hfit. apply N.leb_le in Hfit.
+    pre_start ps Hl. rewrite Hta, Htb. cbn. destruct (N.leb_spec (wa + wb) U32MAX); [reflexivity|lia].
+  - pre_same ps Hl Hwt wt_and.
+  - pre_same ps Hl Hwt wt_or.
+  - pre_same ps Hl Hwt wt_xor.
+  - pre_same ps Hl Hwt wt_shl.
+  - pre_same ps Hl Hwt wt_ashr.
+  - pre_same ps Hl Hwt wt_lshr.
+  - pre_same ps Hl Hwt wt_add.
+  - pre_same ps Hl Hwt wt_mul.
+  - pre_same ps Hl Hwt wt_sdiv.
+  - pre_same ps Hl Hwt wt_udiv.
+  - pre_same ps Hl Hwt wt_smod.
+  - pre_same ps Hl Hwt wt_srem.
+  - pre_same ps Hl Hwt wt_urem.
+  - pre_same ps Hl Hwt wt_sub.
+  - (* read *) destruct (wt_read _ _ _ Hwt) as (Ha & Hb & iw & Hta & Htb). pre_start ps Hl. rewrite Hta. reflexivity.
+  - (* ite *)
+    destruct (wt_ite _ _ _ Hwt) as (Ha & Hb & Hc & Hta & w' & Htb & Htc). pre_start ps Hl. rewrite Hta, Htb, Htc. cbn. rewrite N.eqb_refl. reflexivity.
+  - (* array eq *)
+    destruct (wt_aeq _ _ Hwt) as (Ha & Hb & iw & dw & Hta & Htb). pre_start ps Hl. rewrite Hta, Htb. cbn. rewrite !N.eqb_refl. reflexivity.
+  - (* store *) pre_start ps Hl. reflexivity.
+  - (* array ite *)
+    destruct (wt_aite _ _ _ Hwt) as (Ha & Hb & Hc & Hta & iw & dw & Htb & Htc). pre_start ps Hl. rewrite Hta, Htb, Htc. cbn. rewrite !N.eqb_refl. reflexivity.
+Qed.
